@@ -667,6 +667,7 @@ func (in *c20PkInst) Apply(op explore.Op) *explore.Fail {
 				return in.cbFail
 			}
 		}
+		in.nRecv = 0 // the caps of the configuration count the events of the history proper
 		in.outcome = "start " + c20PkStartNames[op.A] + " -> " + in.stateClass()
 		return nil
 	}
